@@ -113,10 +113,31 @@ def fact_unset_basis_id_sites():
     return f"{_raises_in(fn)}%nat"
 
 
+def fact_unset_check_first():
+    """in _decompose_qpd_instructions the ValueError for an unset basis_id precedes every modification of the
+    circuit (`circuit.data[...] = `, `circuit.data.insert(...)`, `del circuit.data[...]`)."""
+    fn, _ = _fn("_decompose_qpd_instructions")
+    raises, muts = [], []
+    for x in _walk_no_nested(fn):
+        if isinstance(x, ast.Raise) and x.exc is not None:
+            raises.append(x.lineno)
+        elif isinstance(x, ast.Assign) and any(isinstance(t, ast.Subscript) for t in x.targets):
+            muts.append(x.lineno)
+        elif isinstance(x, ast.Delete):
+            muts.append(x.lineno)
+        elif (isinstance(x, ast.Call) and isinstance(x.func, ast.Attribute)
+              and x.func.attr in ("insert", "append", "pop", "remove", "clear", "extend")):
+            muts.append(x.lineno)
+    if not muts:
+        raise Shape("no circuit modification found")
+    return "true" if raises and max(raises) < min(muts) else "false"
+
+
 FACTS = [
     ("c14_validate_messages", "list string", fact_validate_messages),
     ("c14_offset_updates", "list string", fact_offset_updates),
     ("c14_sorted_2q", "bool", fact_sorted_2q),
     ("c14_min_register", "nat", fact_min_register),
     ("c14_decompose_value_errors", "nat", fact_unset_basis_id_sites),
+    ("c14_unset_check_first", "bool", fact_unset_check_first),
 ]
